@@ -134,6 +134,29 @@ def selectFor (impls : List Ty) : Option Ty → Option Nat
 def dispatch (sig inst msig callTy : Ty) (impls : List Ty) : Option Nat :=
   selectFor impls (extractImplTy msig (subst (update [] sig inst) callTy))
 
+/-! ### the monotype component of a label
+
+`{monoty}` in the label hint is the `Display` of the monotype, which names a nominal type by its
+declaration (module-qualified): two types called `Item` in two modules are two different nominal
+ids `n`.  `Ty.code` is that rendering as a prefix code over numbers; `Ty.codeBy short` is the
+rendering that names a nominal type by `short n` instead (e.g. its unqualified name). -/
+
+mutual
+def Ty.codeBy (short : Nat → Nat) : Ty → List Nat
+  | .int => [0] | .float => [1] | .bool => [2] | .string => [3] | .void => [4]
+  | .poly p => [5, p]
+  | .nominal n ps => 6 :: short n :: ps.length :: Ty.codeListBy short ps
+  | .func args out => 7 :: args.length :: (Ty.codeListBy short args ++ Ty.codeBy short out)
+  | .tuple es => 8 :: es.length :: Ty.codeListBy short es
+
+def Ty.codeListBy (short : Nat → Nat) : List Ty → List Nat
+  | [] => []
+  | t :: ts => Ty.codeBy short t ++ Ty.codeListBy short ts
+end
+
+/-- the qualified rendering: a nominal type is named by its declaration -/
+def Ty.code (t : Ty) : List Nat := Ty.codeBy id t
+
 /-! ### labels (`get_func_label`, `make_label`) -/
 
 /-- `FuncDesc`: the function (or lambda / task block), its monotype (if its own type is overloaded)
@@ -142,8 +165,8 @@ def dispatch (sig inst msig callTy : Ty) (impls : List Ty) : Option Nat :=
     parameter (`capture_types[i].is_overloaded()`) -/
 structure Desc where
   func : Nat
-  mono : Option String
-  captures : List (String × Bool)
+  mono : Option (List Nat)          -- `Ty.code` of the monotype
+  captures : List (List Nat × Bool) -- `Ty.code` of each capture's concrete type, and `is_overloaded` of its declared type
 deriving DecidableEq, Repr
 
 /-- `captures_overloaded`: ANY captured variable has an overloaded declared type -/
@@ -155,7 +178,7 @@ def Desc.plain (d : Desc) : Bool := d.mono.isNone && !d.capturesOverloaded
 /-- a label: the hint and the process-wide counter value appended by `make_label`
     (`None` for a plain function, whose label is its fully qualified name) -/
 structure Label where
-  hint : Nat × Option String × List String
+  hint : Nat × Option (List Nat) × List (List Nat)
   id : Option Nat
 deriving DecidableEq, Repr
 
@@ -215,5 +238,14 @@ def ifaceMethods : String → List String
   | "Equal" => ["equal"]
   | "ToString" => ["str"]
   | _ => []
+
+/-- the descriptor of generic function `f` instantiated at the type `t` -/
+def descOf (f : Nat) (t : Ty) : Desc := { func := f, mono := some t.code, captures := [] }
+
+/-- the labels two instantiations of one function get when requested one after the other -/
+def twoLabels (f : Nat) (t1 t2 : Ty) : Label × Label :=
+  let r1 := getLabel { map := [], counter := 1 } (descOf f t1)
+  let r2 := getLabel r1.2 (descOf f t2)
+  (r1.1, r2.1)
 
 end Abra.Mono
